@@ -804,6 +804,16 @@ impl PropertyMap {
         }
     }
 
+    /// Returns the length of the dense element vector, or `None` if the storage is sparse.
+    pub(crate) fn dense_indexed_len(&self) -> Option<usize> {
+        match &self.indexed_properties {
+            IndexedProperties::DenseI32(properties) => Some(properties.len()),
+            IndexedProperties::DenseF64(properties) => Some(properties.len()),
+            IndexedProperties::DenseElement(properties) => Some(properties.len()),
+            IndexedProperties::SparseProperty(_) | IndexedProperties::SparseElement(_) => None,
+        }
+    }
+
     /// Returns the vec of dense indexed properties if they exist.
     pub(crate) fn to_dense_indexed_properties(&self) -> Option<ThinVec<JsValue>> {
         match &self.indexed_properties {
